@@ -224,6 +224,13 @@ pub fn ls_record(seed: u64, n: u64, path: &str) -> Value {
     let mut w = crate::out_file(path);
     let mut r = Rng::new(seed);
     let interesting: &[u32] = &[0, 1, 2, 3, 4, 5, 6, 7, 8, 9, 21, 22, 23, 24, 25, 26, 27, 28, 29, 30, 31, 37, 38, 39, 40, 47, 48, 49, 58, 59, 90, 97, 100, 107, 255];
+    // short descriptions with a multi-byte character at every position of a 2..6-byte text (byte lengths and byte offsets are
+    // not character counts): never a panic, and never a style
+    for t in ["\u{ff11};1", "\u{20ac};1", "1\u{e9};1", "0\u{e9}34", "\u{e9}", "1;\u{e9}", "01;3\u{ff14}", "\u{e9};34", "0\u{e9};4", "01\u{e9}4", "01;\u{e9}", "\u{1f600}1", "1\u{1f600}",
+              "38;05;115", "48;002;1;2;3", "01;38;05;119;04", "38;5;0115", "38;2;001;002;0003", "01:34", "38:5:196", "01;31:04", "0:0"] {
+        writeln!(w, "{}", json!({"s":cps(t),"r":ls_result(t)})).unwrap();
+        extra += 1;
+    }
     for _ in 0..n {
         let count = *r.pick(&[0usize, 1, 1, 2, 3, 4, 6, 10, 20, 40]);
         let mut fields: Vec<String> = Vec::new();
@@ -232,13 +239,14 @@ pub fn ls_record(seed: u64, n: u64, path: &str) -> Value {
                 0 | 1 => {
                     let t = *r.pick(&[38u32, 48, 58]);
                     fields.push(t.to_string());
-                    fields.push("5".into());
-                    fields.push(r.below(256).to_string());
+                    // the selector and the index are NUMBERS: leading zeros do not change them
+                    fields.push(if r.chance(1, 4) { format!("{:0>width$}", 5, width = r.range(2, 4)) } else { "5".into() });
+                    fields.push(if r.chance(1, 6) { format!("{:0>4}", r.below(256)) } else { r.below(256).to_string() });
                 }
                 2 | 3 => {
                     let t = *r.pick(&[38u32, 48, 58]);
                     fields.push(t.to_string());
-                    fields.push("2".into());
+                    fields.push(if r.chance(1, 4) { format!("{:0>width$}", 2, width = r.range(2, 4)) } else { "2".into() });
                     for _ in 0..3 {
                         fields.push(r.below(256).to_string());
                     }
